@@ -487,6 +487,8 @@ class StubSys:
         for o, s in self.sizes:
             if o is obj:
                 return s
+        if type(obj) is LoggedTuple:
+            return sys.getsizeof(tuple(obj))         # the size of the plain tuple a host would pass
         return sys.getsizeof(obj, default)
 
     def __getattr__(self, name):
@@ -534,16 +536,48 @@ class LoggedTuple(tuple):
     __rmul__ = __mul__
 
 
+def rep_operand_len(length):
+    """operand lengths: strings 0, 4, 8, 12 (the estimate is exact per character); sequences 0, 1, 2, 3, 4"""
+    return (4 if H.P('what', 'str') == 'str' else 1) * length
+
+
+def rep_class(q, right, length):
+    """listed class: sequence repetition whose pre-allocation estimate - computed by list_by_int with the header
+    size of a *list* although the operand is a tuple - stays within the quota while the product does not"""
+    if H.P('what', 'str') == 'str':
+        return None
+    L = rep_operand_len(length)
+    true = sys.getsizeof(()) + 8 * L * (right if right > 0 else 0)
+    est = sys.getsizeof([]) + right * (sys.getsizeof(()) + 8 * L - sys.getsizeof([]))
+    if q > 0 and true > q and est <= q:
+        return 'C08/list-repetition-underestimated'
+    return None
+
+
 def repetition(q: int, right: int, length: int, swap: bool) -> bool:
     """
     pre: H.P('qlo', -1) <= q <= 400 and H.P('lenlo', 0) <= length <= H.P('maxlen', 3)
     pre: H.P('rlo', -3) <= right <= H.P('rhi', 40)
+    pre: rep_class(q, right, length) not in KNOWN
     pre: H.fresh(q, right, length, swap)
     post: _
     """
+    return H.done(repetition_ok(q, right, length, swap))
+
+
+def probe_repetition(q: int, right: int, length: int, swap: bool) -> bool:
+    """
+    pre: 1 <= q <= 400 and 1 <= length <= 4 and -3 <= right <= 40
+    pre: rep_class(q, right, length) == H.P('probe_key')
+    post: _
+    """
+    return H.done(repetition_ok(q, right, length, swap))
+
+
+def repetition_ok(q, right, length, swap):
     what = H.P('what', 'str')
     with H.NoTracing():
-        L = 4 * int(H.deep_realize(length))          # operand lengths 0, 4, 8, (12)
+        L = rep_operand_len(int(H.deep_realize(length)))
         if what == 'str':
             left = 'x' * L
             true_size = lambda r: sys.getsizeof('') + (max(r, 0) * L)          # ASCII: 1 byte per character
@@ -581,7 +615,7 @@ def repetition(q: int, right: int, length: int, swap: bool) -> bool:
             ok_val = (r == left * n_r) if what == 'str' else (tuple(r) == tuple(left) * n_r)
             rsize = sys.getsizeof(r)
         ok = ok and ok_val and (q <= 0 or rsize <= q)      # what is returned fits the quota
-    return H.done(ok)
+    return ok
 
 
 def _quota_context():
@@ -827,14 +861,17 @@ def conditions(tier, seed):
     # quota
     add('quota_unit', 'quota_unit', 'Q in [-1,400], counts in [-3,40], stubbed sizes in [0,200], quota as int or engine', t)
     for what in ('str', 'tuple'):
-        lo, hi, ml = (-1, 6, 2) if q else (-3, 40, 3)
-        for ln in range(1 if q else 0, ml + 1):
-            add('repetition[%s,small,len%d]' % (what, ln), 'repetition',
-                'Q in [-1,400], count in [%d,%d], operand length %d, both orders' % (lo, hi, 4 * ln),
+        unit = 4 if what == 'str' else 1
+        lo, hi = (-1, 6) if q else (-3, 40)
+        lens = ([1, 2] if q else [0, 1, 2, 3]) if what == 'str' else ([1, 2, 3, 4] if q else [0, 1, 2, 3, 4])
+        for ln in lens:
+            add('repetition[%s,small,len%d]' % (what, unit * ln), 'repetition',
+                'Q in [-1,400], count in [%d,%d], operand length %d, both orders' % (lo, hi, unit * ln),
                 150 if q else 900, what=what, rlo=lo, rhi=hi, lenlo=ln, maxlen=ln)
         lo = 9999 if q else 9990
-        add('repetition[%s,huge]' % what, 'repetition', 'Q in [1,400], count in [%d,10000], operand length in {0,4,..,%d}' % (lo, 4 * ml),
-            150 if q else 900, what=what, rlo=lo, rhi=10000, maxlen=ml, qlo=1)
+        add('repetition[%s,huge]' % what, 'repetition', 'Q in [1,400], count in [%d,10000], operand lengths %s, both orders'
+            % (lo, ','.join(str(unit * x) for x in lens)), 150 if q else 900, what=what, rlo=lo, rhi=10000,
+            lenlo=min(lens), maxlen=max(lens), qlo=1)
     for which in QUOTA_EXPRS:
         add('quota_flow[%s]' % which, 'quota_flow', 'Q in [-1,400], stubbed size of the value in [0,500]; ' + QUOTA_EXPRS[which],
             t, expr=which)
@@ -843,6 +880,10 @@ def conditions(tier, seed):
             continue
         add('growth_chain[%s]' % name, 'growth_chain', 'Q in [60,400], steps in [0,4]; %s%s...' % CHAINS[name], 150 if q else 600,
             chain=name)
+    if 'C08/list-repetition-underestimated' in KNOWN:
+        out.append({'name': 'probe[list-repetition-underestimated]', 'func': 'probe_repetition', 'timeout': 120,
+                    'kind': 'probe', 'param': {'probe_key': 'C08/list-repetition-underestimated', 'what': 'tuple'},
+                    'bounds': 'Q in [1,400], count in [-3,40], sequence operand lengths 1..4, inside the class'})
     for key in sorted(KNOWN):
         if key in ('C08/len-iterator-unlimited', 'C08/generateMany-producer-unbounded'):
             out.append({'name': 'probe[%s]' % key.split('/')[1], 'func': 'probe_sweep', 'timeout': 120, 'kind': 'probe',
@@ -894,5 +935,20 @@ def replay(cond, args):
         ok, err = False, e
     if ok:
         return {'reproduced': False}
+    if f in ('repetition', 'probe_repetition'):
+        key = rep_class(vals['q'], vals['right'], vals['length'])
+        L = rep_operand_len(vals['length'])
+        left = ('x' * L) if p.get('what', 'str') == 'str' else list(range(L))
+        text = '$a * $b' if not vals['swap'] else '$b * $a'
+        try:
+            got = 'returns a value of %d bytes' % sys.getsizeof(evaluate(text, engine_with(memoryQuota=vals['q']),
+                                                                           a=tuple(left) if L or True else left, b=vals['right']))
+        except Exception as e:
+            got = 'raises %s' % type(e).__name__
+        return {'reproduced': True, 'key': key or 'C08/repetition',
+                'what': 'memoryQuota=%d: %r * %d (%s): the product (%d bytes) is %s; %s'
+                        % (vals['q'], left, vals['right'], text, (sys.getsizeof('') + max(vals['right'], 0) * L)
+                           if isinstance(left, str) else (sys.getsizeof(()) + 8 * L * max(vals['right'], 0)),
+                           'built before the quota check refuses it' if err is None else 'mishandled', got)}
     return {'reproduced': True, 'key': 'C08/%s' % cond['name'].split('[')[0],
             'what': '%s fails for %r%s' % (cond['name'], vals, ' (%r)' % err if err else '')}
